@@ -181,6 +181,26 @@ def run(ctx):
                 else:
                     ctx.violated(r3, pre, a, f"`{a}` is not the tensor form of `{b}`", node=pre.node)
 
+    # the distribution classes themselves: the backend distribution receives the constructor's arguments in their
+    # roles and expected_data() is the mean (what Asimov data and toys are built from)
+    for pcls, pargs, ctor, want_pdf, want_mean in (("Poisson", ["rate"], "poisson_dist", "poisson_dist<RATE>", "RATE"), ("Normal", ["loc", "scale"], "normal_dist", "normal_dist<LOC;SCALE>", "LOC")):
+        pc = repo.cls(PROB, pcls)
+        for m_ in pc.methods.values():
+            ctx.touch(m_)
+        try:
+            pattrs = {}
+            penv = {a_: Poly.atom(a_.upper()) for a_ in pargs}
+            pext = {"get_backend": lambda a, k: (Obj("tensorlib"), None), ctor: lambda a, k, ctor=ctor: Obj(str(fn(ctor, *[to_poly(x) for x in a], *[to_poly(v_) for _, v_ in sorted(k.items())])))}
+            Interp(penv, pattrs, {}, cls_name=pcls, externals=pext).run(A.strip_docstring(pc.methods["__init__"].node.body))
+            mean = Interp({}, pattrs, {}, cls_name=pcls, externals=pext).run(A.strip_docstring(pc.methods["expected_data"].node.body))
+            got_pdf = getattr(pattrs.get("_pdf"), "name", str(pattrs.get("_pdf")))
+            if got_pdf == want_pdf and str(to_poly(mean)) == want_mean:
+                ctx.holds(r3, f"{PROB}::{pcls}", f"_pdf = {want_pdf}; expected_data() = {want_mean}")
+            else:
+                ctx.violated(r3, pc.methods["__init__"], f"{pcls} roles", f"pyhf.probability.{pcls} does not hand its arguments to the backend distribution in their roles, or its expected_data() is not the mean", expected=f"_pdf={want_pdf}, mean={want_mean}", found=f"_pdf={got_pdf}, mean={mean}")
+        except (Undecided, KeyError, TypeError) as e:
+            ctx.unrecognised(r3, pc, f"{pcls}", f"not interpretable: {e}")
+
     # main model: Poisson(observed | expected rates), evaluated on the main data
     mmc = repo.cls(PDF, "_MainModel")
     try:
